@@ -281,6 +281,18 @@ FIXED_POOL = [
     ("kio.schema.produce.v9.response", "ProduceResponse"),
     ("kio.schema.fetch.v17.response", "FetchResponse"),
 ]
+def _sf(name, kt, tag=-1, hasd=False, dflt=None):
+    return {"name": name, "kind": "prim", "arr": False, "ktype": kt, "nul": False, "inul": False, "tag": tag,
+            "hasd": hasd, "dflt": dflt if dflt is not None else project.NULL, "sub": project.DUMMY_SUB}
+
+
+# two DIFFERENT entity classes with the same __module__ and __qualname__ (a class produced twice by a
+# factory, or redefined): a cache keyed by name instead of by class conflates them
+SYNTH_POOL = [
+    ("<synth>", {"name": "Twin", "flex": True, "fields": [_sf("a", "int32"), _sf("t", "int16", 0, True, {"int": 7})]}),
+    ("<synth>", {"name": "Twin", "flex": False, "fields": [_sf("s", "string"), _sf("a", "int8")]}),
+]
+
 # the model's classes: A has a nested B inside a flexible struct, H is a non-flexible header
 MODEL_CLASSES = {"A": 0, "B": 2, "H": 5}
 
@@ -296,9 +308,15 @@ def build_pool_inputs(seed: int, extra: int) -> tuple[list, dict]:
     for cls in rng.sample(allc, extra):
         names.append((cls.__module__, cls.__qualname__))
     pool, schemas, cases = [], {}, []
+    names += SYNTH_POOL
     for ci, (mod, qual) in enumerate(names):
-        cls = getattr(importlib.import_module(mod), qual)
-        schema = project.project_schema(cls)
+        if mod == "<synth>":
+            from . import synth
+            schema = synth.attach_sids(json.loads(json.dumps(qual)))
+            synth.make_class(schema)
+        else:
+            cls = getattr(importlib.import_module(mod), qual)
+            schema = project.project_schema(cls)
         schemas[schema["sid"]] = schema
         values = []
         for vi in range(2):
@@ -310,7 +328,7 @@ def build_pool_inputs(seed: int, extra: int) -> tuple[list, dict]:
             values = signed_zero_pair([s.value(schema, budget=80)], schema)
         for vi, v in enumerate(values):
             cases.append({"id": f"pool{ci}_{vi}", "sid": schema["sid"], "value": v, "var": {"expl": 0, "unk": []}})
-        pool.append({"mod": mod, "qual": qual, "sid": schema["sid"], "values": values})
+        pool.append({"mod": mod, "qual": qual if mod != "<synth>" else schema, "sid": schema["sid"], "values": values})
     return pool, {"schemas": schemas, "cases": cases}
 
 
@@ -325,8 +343,13 @@ def materialise_pool(pool: list, encoded: list) -> list:
     enc = {e["id"]: e for e in encoded}
     out = []
     for ci, ent in enumerate(pool):
-        cls = getattr(importlib.import_module(ent["mod"]), ent["qual"])
-        schema = project.project_schema(cls)
+        if ent["mod"] == "<synth>":
+            from . import synth
+            schema = ent["qual"]
+            cls = synth.make_class(schema)
+        else:
+            cls = getattr(importlib.import_module(ent["mod"]), ent["qual"])
+            schema = project.project_schema(cls)
         insts = [project.build_entity(v, schema) for v in ent["values"]]
         out.append({"cls": cls, "schema": schema, "values": ent["values"],
                     "instances": insts, "bad": [bad_variants(i, schema) for i in insts],
